@@ -67,6 +67,9 @@ def insert_knot(obj, param, num, **kwargs):
                 raise GeomdlException('Number of insertions must be a positive integer value',
                                       data=dict(idx=idx, num=val))
 
+    # Use the existing knot value when the parameter coincides with a knot
+    param = ops.snap_params_to_knots(obj, param)
+
     # Start curve knot insertion
     if isinstance(obj, abstract.Curve):
         if param[0] is not None and num[0] > 0:
@@ -339,6 +342,9 @@ def remove_knot(obj, param, num, **kwargs):
             if val < 0:
                 raise GeomdlException('Number of removals must be a positive integer value',
                                       data=dict(idx=idx, num=val))
+
+    # Use the existing knot value when the parameter coincides with a knot
+    param = ops.snap_params_to_knots(obj, param)
 
     # Start curve knot removal
     if isinstance(obj, abstract.Curve):
